@@ -21,6 +21,26 @@ Theorem c08_rule_is_a_function_of_the_set : forall G A B,
 Proof. exact legal_same. Qed.
 Print Assumptions c08_rule_is_a_function_of_the_set.
 
+(* what the reader accepts (STEPcomplex::Initialize: one part is decided on the entity itself, two and more parts by the
+   supertype lists) does not depend on the order of the parts either *)
+Theorem c08_accepted_whatever_the_order : forall G A B,
+  Permutation A B -> accepted G A = accepted G B.
+Proof. exact accepted_perm. Qed.
+Print Assumptions c08_accepted_whatever_the_order.
+
+(* an externally mapped instance with a single part is accepted exactly when the rule allows that entity alone:
+   it has no supertype and is not abstract (schemas in which no entity is its own supertype) *)
+Theorem c08_single_part_accepted_iff_legal : forall G e,
+  memb e (supers G e) = false -> memb e (subs G e) = false ->
+  accepted G [e] = legal G [e].
+Proof. exact accepted_single. Qed.
+Print Assumptions c08_single_part_accepted_iff_legal.
+
+Example c08_single_example :
+  accepted G_twosupers [1]%N = true /\ legal G_twosupers [1]%N = true /\ accepted G_oneof [1]%N = false /\ legal G_oneof [1]%N = false /\
+  accepted G_oneof [2]%N = false /\ legal G_oneof [2]%N = false.
+Proof. vm_compute. repeat split. Qed.
+
 (* "supported iff legal" is false of the faithful model (and of the code: the witness replays):
    an entity with two supertypes inside one hierarchy is matched along one path only. *)
 Theorem c08_supports_iff_legal_refuted :
